@@ -378,6 +378,21 @@ def run(ctx):
         b = prog.body(helper)
         ret = b.expr_local(0)
         key = "filter:%s" % ("numpad" if is_np else "keyed")
+        if is_np and len(prog.fns[helper].get("inputs") or []) == 2:
+            # the keypad switch is tested in the table function: every keypad key reaches this look-up only with the switch on and answers
+            # None with it off (read from the table's paths); the look-up itself then keeps a value iff it is not empty
+            kp_rows = {v_: r_ for v_, r_ in rows.items() if r_.get("callee") == helper}
+            off_ = getattr(prog, "_layout_gated_off", set())
+            alts_ = getattr(prog, "_layout_alts", {})
+            bad_gate = [v_ for v_, r_ in sorted(kp_rows.items())
+                        if not (r_.get("gated_in_table") and r_["third"].k == "arg" and v_ in off_
+                                and all(a_.get("gated_in_table") and a_["third"].k == "arg" for a_ in alts_.get(v_, [])))]
+            if not kp_rows or bad_gate:
+                r3.violation("gate:numpad", "the keypad look-up takes no switch and the table function does not gate key code(s) %s by the keypad option on every path"
+                             % ([hex(v_) for v_ in bad_gate[:4]] or "— none reach it"), common.fn_line(prog, fnk))
+                continue
+            r3.ok("gate:numpad", "%d keypad keys reach the look-up only with the option on and answer None with it off" % len(kp_rows))
+            is_np = False           # the look-up's own filter is the plain one
         # cloned(filter(get(map, k), closure))
         e = ret
         if e.k == "call" and e.a[0].endswith("::cloned"):
